@@ -155,15 +155,24 @@ inductive FSt where
   | last       -- after `{% else %}`: none
   deriving DecidableEq, Repr, Inhabited
 
+/-- statements of the fragment: `break`, `continue`, and `{% set x = e %}` whose text does not collide with a statement
+form of the generator itself (`_tt_tmp = …`, `_tt_append(…)`, `pass` …) -/
+def stmtOK (s : Str) : Bool :=
+  s == (/-"break"-/ [98, 114, 101, 97, 107] : List Nat) || s == (/-"continue"-/ [99, 111, 110, 116, 105, 110, 117, 101] : List Nat) ||
+  (classify s == .other &&
+   !(startsWith (/-"import "-/ [105, 109, 112, 111, 114, 116, 32] : List Nat) s || startsWith (/-"from "-/ [102, 114, 111, 109, 32] : List Nat) s) &&
+   (splitEq s).isSome)
+
 /-- **the fragment covered by `interp_matches_gen_structure_partial`**: text, `{{ expression }}`, `{% raw %}`
 (and `{% module %}`, which is a raw expression), `{% if %}` with any number of `{% elif %}` and a final
-`{% else %}`, `{% for %}` with an optional `{% else %}`, nested arbitrarily; comments, `{% whitespace %}` and
-`{% autoescape %}` leave no node.  Excluded: `set`/`import`/`break`/`continue` statements, `while`, `try`,
-`apply`, `block`, `extends`, `include`. -/
+`{% else %}`, `{% for %}` with an optional `{% else %}`, `{% set x = e %}`, `{% break %}`, `{% continue %}`, nested
+arbitrarily; comments, `{% whitespace %}` and `{% autoescape %}` leave no node.  Excluded: `import`/`from`, `while`,
+`try`, `apply`, `block`, `extends`, `include`. -/
 def frag : FSt → List Node → Bool
   | _, [] => true
   | st, .text _ _ _ :: ns => frag st ns
   | st, .expr _ _ _ :: ns => frag st ns
+  | st, .stmt s _ :: ns => stmtOK s && frag st ns
   | st, .inter s _ :: ns =>
     match st with
     | .ifChain =>
@@ -203,6 +212,9 @@ def emitBody (file : Str) (via : List (Str × Nat)) (ae : Option Str) :
   | .expr e l raw :: ns =>
     let r := emitBody file via ae ns
     ((exprLines e raw ae).map (fun c => PStmt.simple c ⟨file, l, via⟩) ++ r.1, r.2)
+  | .stmt s l :: ns =>
+    let r := emitBody file via ae ns
+    (.simple s ⟨file, l, via⟩ :: r.1, r.2)
   | .control s l body :: ns =>
     let b := emitBody file via ae body
     let r := emitBody file via ae ns
@@ -335,7 +347,10 @@ theorem gen_emit (L : Loader) (named : List Named) : ∀ (f : Nat) (st : FSt) (n
         rw [hbody]
         simp [emitBody, bodyLines, flatList_append, flat_buildBlocks, W.app, W.write, W.writeAt, W.writeHdr,
           List.append_assoc, secLines]
-      | stmt s l => simp [frag] at hfr
+      | stmt s l =>
+        simp only [frag, Bool.and_eq_true] at hfr
+        rw [ih st ns _ hfr.2 h]
+        simp [genNode, emitBody, bodyLines, flatList, PStmt.flat, W.app, W.write, W.writeAt, List.append_assoc]
       | apply m l body => simp [frag] at hfr
       | block name l body => simp [frag] at hfr
       | «extends» name => simp [frag] at hfr
